@@ -90,6 +90,8 @@ pub mod rs {
     pub uninterp spec fn par(r: Runner) -> nat;
     /// how many completions returned by wait() so far reported Termination::Success (C19: `ran N tasks`)
     pub uninterp spec fn succ(r: Runner) -> nat;
+    /// label (no content): the report was returned by Runner::wait, i.e. it describes a command that ran in this invocation
+    pub uninterp spec fn from_run(t: crate::task::TaskResult) -> bool;
     }
 }
 
